@@ -248,3 +248,55 @@ def job_parseoffset(mode, L):
                 raise symex.Unsupported("reference scanner needs a byte the real scanner never examined")
         ex.call(st, F, [p, m, out], k)
     return ex.execute(h)
+
+# ------------------------------------------------------------------------------------------ C07 kernels: print then scan
+def job_rt_int(sign="pos", width=0):
+    """ParseInt<long>(Format64(v)) == v for every int64 v of the sign class"""
+    ex = new_ex(); F64 = fn(r"anonymous namespace\)::Format64\("); PI = fn(r"ParseInt<long>\(")
+    def h(ex, st):
+        if sign == "pos": v = ex.input("v", 64, 0, I64MAX)
+        elif sign == "neg": v = ex.input("v", 64, I64MIN + 1, -1)
+        else: v = I64MIN
+        buf = ex.new_obj(st, BUF + 1, "scratch+NUL"); ex.store_raw(st, Ptr(buf.obj, BUF), 1, 0)
+        vp = ex.new_obj(st, 8, "value"); ex.store_raw(st, vp, 8, ex.fresh("prefill"))
+        def k2(st, rv):
+            ok = isinstance(rv, Ptr) and rv.obj == buf.obj
+            ex.prove(st, ok and rv.off == BUF, "parse side consumes exactly what the print side wrote")
+            ex.prove(st, eq(ex.load(st, vp, I64), v), "ParseInt(Format64(v)) == v")
+        def k1(st, rv):
+            ex.call(st, PI, [rv, 0, I64MIN, I64MAX, vp], k2)
+        ex.call(st, F64, [Ptr(buf.obj, BUF), width, v], k1)
+    return ex.execute(h)
+
+def job_rt_offset(fmode, pmode):
+    """ParseOffset(FormatOffset(off)) == off where the rendering is lossless: %z/%Ez when the offset has no seconds, %E*z always"""
+    ex = new_ex(); FO = fn(r"anonymous namespace\)::FormatOffset\("); PO = fn(r"anonymous namespace\)::ParseOffset\(")
+    def h(ex, st):
+        off = ex.input("offset", 32, -86399, 86399)
+        if fmode in ("", ":"): ex.assume(st, eq(fmod(ite(lt(off, 0), smt.neg(off), off), 60), 0))      # no seconds part
+        buf = ex.new_obj(st, BUF + 1, "scratch+NUL"); ex.store_raw(st, Ptr(buf.obj, BUF), 1, 0)
+        m1 = lit(ex, st, fmode, "fmode"); m2 = lit(ex, st, pmode, "pmode")
+        out = ex.new_obj(st, 4, "offset"); ex.store_raw(st, out, 4, ex.fresh("prefill", 32))
+        def k2(st, rv):
+            ok = isinstance(rv, Ptr) and rv.obj == buf.obj
+            ex.prove(st, ok and rv.off == BUF, "ParseOffset consumes the whole rendering")
+            ex.prove(st, eq(ex.load(st, out, I32), off), "ParseOffset(FormatOffset(off)) == off")
+        def k1(st, rv):
+            ex.call(st, PO, [rv, m2, out], k2)
+        ex.call(st, FO, [Ptr(buf.obj, BUF), off, m1], k1)
+    return ex.execute(h)
+
+def job_rt_subsec():
+    """ParseSubSeconds(the 15 digits Format64(ep,15,fs) writes) == fs for every femtosecond value in [0,1s)"""
+    ex = new_ex(); F64 = fn(r"anonymous namespace\)::Format64\("); PS = fn(r"anonymous namespace\)::ParseSubSeconds\(")
+    def h(ex, st):
+        fs = ex.input("fs", 64, 0, 10 ** 15 - 1)
+        buf = ex.new_obj(st, BUF + 1, "scratch+NUL"); ex.store_raw(st, Ptr(buf.obj, BUF), 1, 0)
+        out = ex.new_obj(st, 8, "femtoseconds"); ex.store_raw(st, out, 8, ex.fresh("prefill"))
+        def k2(st, rv):
+            ex.prove(st, isinstance(rv, Ptr) and rv.off == BUF, "ParseSubSeconds consumes all 15 digits")
+            ex.prove(st, eq(ex.load(st, out, I64), fs), "ParseSubSeconds(15 digits of fs) == fs")
+        def k1(st, rv):
+            ex.call(st, PS, [rv, out], k2)
+        ex.call(st, F64, [Ptr(buf.obj, BUF), 15, fs], k1)
+    return ex.execute(h)
